@@ -62,6 +62,22 @@ def rule_r2(facts, rep, rid="C19-R2"):
         rep.violation(rid, key, "; ".join(probs), f.loc)
     else:
         rep.ok(rid, key, "writes `%s`, then renames it to `%s`" % (fb.show(wt)[:50], fb.show(rd)[:50]), f.loc)
+    # the final path is touched by nothing but the rename's destination: every other mutating call in write_file targets the temporary
+    counts = {}
+    for x in fb.calls_in(f.body, lambda p_: p_ in FS_MUTATORS):
+        cal = fb.callee(x)
+        if cal == "std::fs::rename":
+            continue
+        l2 = fb.last2(cal)
+        i = counts.get(l2, 0)
+        counts[l2] = i + 1
+        k2 = "%s|%s:%d|targets-temporary" % (f.def_, l2, i)
+        tgt = x["args"][0] if x.get("args") else None
+        if tgt is not None and _same_place(tgt, wt) and not _same_place(tgt, rd):
+            rep.ok(rid, k2, "%s(%s) works on the temporary sibling" % (l2, fb.show(tgt)[:40]), loc(f, x))
+        else:
+            rep.violation(rid, k2, "%s is applied to `%s`, which is not the temporary sibling that was written (`%s`): on the failure path the note itself (final path `%s`) is "
+                          "deleted or overwritten, so a failed write loses the old text" % (l2, fb.show(tgt)[:40] if tgt is not None else "?", fb.show(wt)[:40], fb.show(rd)[:40]), loc(f, x))
     # temporary sibling must not be picked up by the loader (extension != md) and live in the same directory
     lits = [x.get("v", "") for x in fb.walk(f.body) if x.get("k") == "lit"]
     tmp_like = [l for l in lits if ".md" in l and (l.rstrip("·").endswith(("tmp", "~", "swp", "new", "part")) or ".tmp" in l)]
